@@ -185,12 +185,10 @@ theorem priority_queue_signals {w : World} {p : Pid} {k : Nat} {x : PQ} (hx : w.
 
 /-! ### quiescence
 
-Full statement (`grant_invariant`, `quiescent_ok` of DESIGN.md): `GrantInv w` holds in every reachable fault-free state,
-hence `dispatch w = none` implies that no front waiter of a non-condition guard has a true demand.
-Proved here: the second half, from `GrantInv`.  Missing: the preservation of `GrantInv` by `dispatch`, which needs, for
-every object type, that the process resumed by a grant either makes the front demand false or signals again before it
-yields (the per-primitive equations above are exactly those signals), together with the ownership invariant of grants
-(`NoStaleInv`, C04) to identify the pending grant with a waiter of this guard. -/
+Full statement (`grant_invariant`, `quiescent_ok` of DESIGN.md): proved at the end of this file, in a stronger, inductive
+form (`grant_invariant_reachable`, `grant_pending_if_satisfiable`, `quiescent_ok`): a grant OF THAT GUARD is pending, and
+for the queues as many grants as there are objects / free slots; at quiescence no waiter at all has a true demand.
+`quiescent_ok_partial` below is the original derivation of quiescence from the weaker `GrantInv`. -/
 
 theorem no_more_events_iff (w : World) : dispatch w = none ↔ w.ev.pending = [] := dispatch_none_iff w
 
@@ -363,5 +361,19 @@ example : ∃ w0 : World, Built w0 ∧ VarsOk w0 ∧ w0.procs.size = 2 ∧ (∃ 
     rw [hprocs]; rfl
   refine ⟨_, hb, hv, hsz, ⟨0, ?_⟩, fun fuel => hb.grantRun (by rw [hsz]; decide) hv fuel⟩
   simp only [gOf, hres]; rfl
+
+/- non-vacuity of `quiescent_ok_loader`: a built world with a resource and a process that is never started is quiescent,
+   fault-free, and has an object end with a guard -/
+example : ∃ w0 : World, Built w0 ∧ VarsOk w0 ∧ w0.procs.size < 2 ^ 31 ∧ Reach w0 w0 ∧ w0.fault = none ∧ dispatch w0 = none ∧
+    ∃ g gd, gOf w0 (.resAvail 0) = some g ∧ w0.guards[g]? = some gd := by
+  have hb : Built (addProc (addRes {}) 0 #[(.acquire 0, "acquire 0"), (.release 0, "release 0")]) := by
+    refine .proc 0 _ (.res .empty) ?_
+    intro i c t h
+    rcases i with _ | _ | i <;> cases h <;> trivial
+  refine ⟨_, hb, ?_, by decide, Reach.refl _, rfl, by decide, 0, { q := mkHH 3, isCond := false }, rfl, rfl⟩
+  intro p i c t hs
+  rcases p with _ | p
+  · rcases i with _ | _ | i <;> cases hs <;> trivial
+  · cases hs
 
 end CimbaModel.Props.C08
